@@ -95,10 +95,10 @@ type Field struct {
 	// DefaultElems: the elements of a `default=[a,b]` declared on a slice field
 	// (HasDefault is set and Default holds the bracketed text).
 	DefaultElems []string
-	Range      *Range
-	Options    []string
-	FromString bool
-	order      []int // permutation of the option segments in the tag
+	Range        *Range
+	Options      []string
+	FromString   bool
+	order        []int // permutation of the option segments in the tag
 }
 
 // IsOptional reports whether any optional form is declared on the field.
@@ -589,6 +589,12 @@ func genSliceDefault(t *rapid.T, f *Field, cfg GenConfig) {
 	var pool []string
 	if k == reflect.String {
 		pool = []string{"west", "north", "east", "a", "B", "x1", "7", "1.5", "true"}
+		if cfg.Exclude["N4"] { // known finding: string defaults spelled like a bool literal
+			pool = pool[:len(pool)-1]
+			if cfg.OnExcluded != nil {
+				cfg.OnExcluded()
+			}
+		}
 	} else {
 		pool = validLiterals(&Field{}, k, false)
 	}
@@ -2146,4 +2152,365 @@ func DecodeJSON(data []byte) (any, error) {
 		return nil, err
 	}
 	return v, nil
+}
+
+// ---------------------------------------------------------------- result independence
+
+// DeepCopy returns an independent copy of v (nothing reachable from the copy is
+// shared with v).
+func DeepCopy(v reflect.Value) reflect.Value {
+	out := reflect.New(v.Type()).Elem()
+	deepCopyInto(out, v)
+	return out
+}
+
+func deepCopyInto(dst, src reflect.Value) {
+	switch src.Kind() {
+	case reflect.Ptr:
+		if src.IsNil() {
+			return
+		}
+		p := reflect.New(src.Type().Elem())
+		deepCopyInto(p.Elem(), src.Elem())
+		dst.Set(p)
+	case reflect.Struct:
+		for i := 0; i < src.NumField(); i++ {
+			deepCopyInto(dst.Field(i), src.Field(i))
+		}
+	case reflect.Slice:
+		if src.IsNil() {
+			return
+		}
+		s := reflect.MakeSlice(src.Type(), src.Len(), src.Len())
+		for i := 0; i < src.Len(); i++ {
+			deepCopyInto(s.Index(i), src.Index(i))
+		}
+		dst.Set(s)
+	case reflect.Map:
+		if src.IsNil() {
+			return
+		}
+		m := reflect.MakeMapWithSize(src.Type(), src.Len())
+		it := src.MapRange()
+		for it.Next() {
+			e := reflect.New(src.Type().Elem()).Elem()
+			deepCopyInto(e, it.Value())
+			m.SetMapIndex(it.Key(), e)
+		}
+		dst.Set(m)
+	default:
+		dst.Set(src)
+	}
+}
+
+// Same is deep equality that treats NaN as equal to NaN and keeps nil and empty
+// containers apart.  "" = same, otherwise the first difference.
+func Same(a, b reflect.Value) string { return same(a, b, "") }
+
+func same(a, b reflect.Value, path string) string {
+	switch a.Kind() {
+	case reflect.Ptr:
+		if a.IsNil() != b.IsNil() {
+			return fmt.Sprintf("%s: nil pointer vs non-nil", path)
+		}
+		if a.IsNil() {
+			return ""
+		}
+		return same(a.Elem(), b.Elem(), path)
+	case reflect.Struct:
+		for i := 0; i < a.NumField(); i++ {
+			if d := same(a.Field(i), b.Field(i), path+"."+a.Type().Field(i).Name); d != "" {
+				return d
+			}
+		}
+		return ""
+	case reflect.Slice:
+		if a.IsNil() != b.IsNil() || a.Len() != b.Len() {
+			return fmt.Sprintf("%s: %v vs %v", path, a.Interface(), b.Interface())
+		}
+		for i := 0; i < a.Len(); i++ {
+			if d := same(a.Index(i), b.Index(i), fmt.Sprintf("%s[%d]", path, i)); d != "" {
+				return d
+			}
+		}
+		return ""
+	case reflect.Map:
+		if a.IsNil() != b.IsNil() || a.Len() != b.Len() {
+			return fmt.Sprintf("%s: %v vs %v", path, a.Interface(), b.Interface())
+		}
+		it := a.MapRange()
+		for it.Next() {
+			bv := b.MapIndex(it.Key())
+			if !bv.IsValid() {
+				return fmt.Sprintf("%s: key %v missing", path, it.Key())
+			}
+			if d := same(it.Value(), bv, fmt.Sprintf("%s[%v]", path, it.Key())); d != "" {
+				return d
+			}
+		}
+		return ""
+	case reflect.Float32, reflect.Float64:
+		x, y := a.Float(), b.Float()
+		if x == y || (math.IsNaN(x) && math.IsNaN(y)) {
+			return ""
+		}
+		return fmt.Sprintf("%s: %v vs %v", path, x, y)
+	default:
+		if a.Interface() == b.Interface() {
+			return ""
+		}
+		return fmt.Sprintf("%s: %v vs %v", path, a.Interface(), b.Interface())
+	}
+}
+
+// ScribbleStats counts what Scribble found to overwrite.
+type ScribbleStats struct {
+	Scalars int // scalar struct fields overwritten (memory owned by the target itself)
+	Refs    int // writes into memory behind a reference: slice elements, map entries, pointees
+	undo    []func()
+}
+
+// Undo takes every write back, in reverse order, through the same references.  If
+// the unmarshaller shares memory with the scribbled target (the defect this oracle
+// looks for) that memory is repaired too, so that one failing case does not poison
+// the process for the cases (and shrink attempts) that follow.
+func (st *ScribbleStats) Undo() {
+	for i := len(st.undo) - 1; i >= 0; i-- {
+		st.undo[i]()
+	}
+	st.undo = nil
+}
+
+// set performs v.Set(x) and records how to take it back.
+func (st *ScribbleStats) set(v, x reflect.Value) {
+	old := reflect.New(v.Type()).Elem()
+	old.Set(v)
+	v.Set(x)
+	st.undo = append(st.undo, func() { v.Set(old) })
+}
+
+// setMap performs m[k] = x (x invalid: delete) and records how to take it back.
+func (st *ScribbleStats) setMap(m, k, x reflect.Value) {
+	var old reflect.Value
+	if cur := m.MapIndex(k); cur.IsValid() {
+		old = reflect.New(cur.Type()).Elem()
+		old.Set(cur)
+	}
+	m.SetMapIndex(k, x)
+	st.undo = append(st.undo, func() { m.SetMapIndex(k, old) })
+}
+
+// Scribble overwrites, in place, everything mutable that is reachable from the
+// (addressable) value v: every scalar gets another value, slices are written
+// element by element and reversed, map entries are overwritten, one is deleted and
+// one added, pointers are written through.  It never allocates a new slice or
+// pointer for the target: memory that the unmarshaller may have kept a reference to
+// is what gets damaged.
+func Scribble(v reflect.Value) ScribbleStats {
+	var st ScribbleStats
+	scribble(v, false, &st)
+	return st
+}
+
+func scribble(v reflect.Value, behindRef bool, st *ScribbleStats) {
+	switch v.Kind() {
+	case reflect.Ptr:
+		if !v.IsNil() {
+			scribble(v.Elem(), true, st)
+		}
+	case reflect.Struct:
+		for i := 0; i < v.NumField(); i++ {
+			scribble(v.Field(i), behindRef, st)
+		}
+	case reflect.Slice:
+		n := v.Len()
+		for i := 0; i < n; i++ {
+			scribble(v.Index(i), true, st)
+		}
+		for i, j := 0, n-1; i < j; i, j = i+1, j-1 { // reverse in place
+			x := reflect.New(v.Type().Elem()).Elem()
+			x.Set(v.Index(i))
+			st.set(v.Index(i), v.Index(j))
+			st.set(v.Index(j), x)
+			st.Refs++
+		}
+	case reflect.Map:
+		if v.IsNil() {
+			return
+		}
+		keys := v.MapKeys()
+		sort.Slice(keys, func(i, j int) bool { return keys[i].String() < keys[j].String() })
+		for i, k := range keys {
+			e := reflect.New(v.Type().Elem()).Elem()
+			e.Set(v.MapIndex(k)) // shallow: containers/pointees behind the entry stay shared
+			scribble(e, true, st)
+			st.setMap(v, k, e)
+			if i == 0 && len(keys) > 1 {
+				st.setMap(v, k, reflect.Value{}) // delete one entry
+			}
+			st.Refs++
+		}
+		st.setMap(v, reflect.ValueOf("scribbled"), reflect.Zero(v.Type().Elem()))
+		st.Refs++
+	case reflect.Bool:
+		st.set(v, reflect.ValueOf(!v.Bool()).Convert(v.Type()))
+		count(behindRef, st)
+	case reflect.Int, reflect.Int8, reflect.Int16, reflect.Int32, reflect.Int64:
+		st.set(v, reflect.ValueOf(v.Int()^0x55).Convert(v.Type()))
+		count(behindRef, st)
+	case reflect.Uint, reflect.Uint8, reflect.Uint16, reflect.Uint32, reflect.Uint64:
+		st.set(v, reflect.ValueOf(v.Uint()^0x55).Convert(v.Type()))
+		count(behindRef, st)
+	case reflect.Float32, reflect.Float64:
+		f := v.Float()
+		if math.IsNaN(f) || math.IsInf(f, 0) {
+			f = 42
+		} else {
+			f = -f/2 - 1
+		}
+		st.set(v, reflect.ValueOf(f).Convert(v.Type()))
+		count(behindRef, st)
+	case reflect.String:
+		st.set(v, reflect.ValueOf("scribbled<"+v.String()+">").Convert(v.Type()))
+		count(behindRef, st)
+	}
+}
+
+func count(behindRef bool, st *ScribbleStats) {
+	if behindRef {
+		st.Refs++
+	} else {
+		st.Scalars++
+	}
+}
+
+// ScribbleInput overwrites, in place, the value tree that was handed to the
+// unmarshaller as its input (maps and slices of a map[string]any input, lists of
+// strings, raw bytes) and returns the number of writes.
+func ScribbleInput(v any) int {
+	n := 0
+	switch vv := v.(type) {
+	case map[string]any:
+		for _, k := range sortedKeys(vv) {
+			n += ScribbleInput(vv[k])
+			switch vv[k].(type) {
+			case map[string]any, []any, []string:
+			default:
+				vv[k] = "scribbled-input"
+				n++
+			}
+		}
+		vv["scribbled-input"] = []any{"x"}
+		n++
+	case []any:
+		for i := range vv {
+			n += ScribbleInput(vv[i])
+			switch vv[i].(type) {
+			case map[string]any, []any:
+			default:
+				vv[i] = "scribbled-input"
+				n++
+			}
+		}
+		for i, j := 0, len(vv)-1; i < j; i, j = i+1, j-1 {
+			vv[i], vv[j] = vv[j], vv[i]
+		}
+	case []string:
+		for i := range vv {
+			vv[i] = "scribbled-input"
+			n++
+		}
+	case map[string]string:
+		for k := range vv {
+			vv[k] = "scribbled-input"
+			n++
+		}
+	case map[string][]string:
+		for _, l := range vv {
+			n += ScribbleInput(l)
+		}
+	case []byte:
+		for i := range vv {
+			vv[i] = 'x'
+			n++
+		}
+	}
+	return n
+}
+
+// Independence checks the result-independence reading of "the target holds exactly
+// the supplied values with defaults filled for the absent ones": what a successful
+// unmarshal handed out must not be memory the unmarshaller keeps.  first is the
+// pointer to an accepted, already verified target; inputs are the value trees that
+// were passed in; again unmarshals THE SAME document (rebuilt by the caller) into
+// the pointer it is given.  The target and the inputs are scribbled over, then the
+// document is unmarshalled again into a fresh target, which must equal the copy
+// saved before the scribbling and satisfy the soundness oracle; and the first target
+// must not change during the second call.  Returns "" or the violation.
+func Independence(spec *Type, docs map[string]map[string]any, first reflect.Value, inputs []any,
+	again func(ptr any) error) (msg string, st ScribbleStats, inputWrites int) {
+	saved := DeepCopy(first.Elem())
+	st = Scribble(first.Elem())
+	defer st.Undo()
+	for _, in := range inputs {
+		inputWrites += ScribbleInput(in)
+	}
+	after := DeepCopy(first.Elem())
+	second := reflect.New(spec.RType())
+	var err error
+	var panicked any
+	func() {
+		defer func() { panicked = recover() }()
+		err = again(second.Interface())
+	}()
+	switch {
+	case panicked != nil:
+		return fmt.Sprintf("the second unmarshal of the same document panicked: %v", panicked), st, inputWrites
+	case err != nil:
+		return fmt.Sprintf("the same document was accepted once and rejected the second time: %v", err), st, inputWrites
+	}
+	if d := Same(saved, second.Elem()); d != "" {
+		return fmt.Sprintf("after the first result (and the input) had been overwritten by their owner, a second unmarshal of the same document yields another result: %s\n  first result:  %+v\n  second result: %+v",
+			d, saved.Interface(), second.Elem().Interface()), st, inputWrites
+	}
+	if msgs := Check(spec, docs, second); len(msgs) > 0 {
+		return "second unmarshal: " + strings.Join(msgs, "; "), st, inputWrites
+	}
+	if d := Same(after, first.Elem()); d != "" {
+		return fmt.Sprintf("an already returned target changed while the same document was unmarshalled into another target: %s", d), st, inputWrites
+	}
+	return "", st, inputWrites
+}
+
+// CheckDefaults is the oracle for fill-default mode (conf.FillDefault on a zero
+// target): every field that declares a default — at the top level and inside nested
+// non-pointer structs — holds it.  Nothing is asserted about the other fields.
+func CheckDefaults(spec *Type, target reflect.Value) []string {
+	c := &checker{}
+	for target.Kind() == reflect.Ptr {
+		target = target.Elem()
+	}
+	c.defaults(spec, target, "")
+	return c.out
+}
+
+func (c *checker) defaults(spec *Type, v reflect.Value, path string) {
+	for i, f := range spec.Fields {
+		fp := path + "." + f.Name
+		d := f.T.Deref()
+		switch {
+		case f.DefaultElems != nil:
+			c.sliceDefault(f, v.Field(i), fp)
+		case f.HasDefault && d.IsScalar():
+			dv, ok := derefValue(v.Field(i))
+			r := refScalar(d.Kind, f.Default)
+			if !ok {
+				c.fail("(d) %s: default %q not filled (nil pointer)", fp, f.Default)
+			} else if r.status == stOK && !r.holds(d.Kind, dv) {
+				c.fail("(d) %s: default %q declared, target holds %v", fp, f.Default, dv.Interface())
+			}
+		case f.T.Kind == reflect.Struct:
+			c.defaults(d, v.Field(i), fp)
+		}
+	}
 }
